@@ -79,6 +79,11 @@ class Function:
     #
     service2global_ctx: ClassVar[dict[str, str]] = {}
 
+    #
+    # the registered callbacks of each service, oldest first; hass calls the last one
+    #
+    service_handlers: ClassVar[dict[str, list]] = {}
+
     def __init__(self):
         """Warn on Function instantiation."""
         _LOGGER.error("Function class is not meant to be instantiated")
@@ -511,16 +516,27 @@ class Function:
                 f"{global_ctx_name}: can't register service {key}; already defined in {cls.service2global_ctx[key]}"
             )
         cls.service_cnt[key] += 1
+        cls.service_handlers.setdefault(key, []).append((callback, supports_response))
         cls.hass.services.async_register(domain, service, callback, supports_response=supports_response)
 
     @classmethod
-    def service_remove(cls, global_ctx_name, domain, service):
-        """Remove a service callback."""
+    def service_remove(cls, global_ctx_name, domain, service, callback=None):
+        """Remove a service callback; the most recent remaining declaration becomes the handler."""
         key = f"{domain}.{service}".lower()
+        handlers = cls.service_handlers.get(key, [])
+        was_current = len(handlers) > 0 and handlers[-1][0] == callback
+        for idx, (handler, _) in enumerate(handlers):
+            if handler == callback:
+                del handlers[idx]
+                break
         if cls.service_cnt.get(key, 0) > 1:
             cls.service_cnt[key] -= 1
+            if was_current and len(handlers) > 0:
+                handler, supports_response = handlers[-1]
+                cls.hass.services.async_register(domain, service, handler, supports_response=supports_response)
             return
         cls.service_cnt[key] = 0
+        cls.service_handlers.pop(key, None)
         cls.hass.services.async_remove(domain, service)
         cls.service2global_ctx.pop(key, None)
 
